@@ -115,12 +115,47 @@ def own (j : Json) : R Json := do
              ("signal", ofMatF sl), ("gram", ofMatF gl),
              ("rdm", ofList ofFloat (rdms.headD []))])
 
+/-- `make_signal` as coded after the repair: the recorded normal draw, the recorded results of
+    `np.linalg.qr` / `np.linalg.eigh`, optional channel factor; truncated to `n_ch` columns -/
+def signal (j : Json) : R Json := do
+  let nCond ← fld j "n_cond" >>= asNat
+  let nCh ← fld j "n_ch" >>= asNat
+  let exact ← fld j "exact" >>= asBool
+  let z ← fld j "z" >>= asMatF
+  let q ← asOpt asMatF (fldD j "q" Json.null)
+  let eigval ← fld j "eigval" >>= asList asFloat
+  let eigvec ← fld j "eigvec" >>= asMatF
+  let cholS ← optMat j "chol_s"
+  let w := genWidth nCond nCh
+  -- materialise the centred / whitened draw once (the model term is the same function)
+  let s := makeSignalCoded nCond nCh exact (ofLists z) (ofLists (q.getD [])) (fun k => eigval.getD k 0)
+    (ofLists eigvec) cholS
+  pure (obj [("signal", ofMatF (toLists nCond nCh s)), ("gen_width", ofNat w),
+             ("clamped", ofList ofFloat (eigval.map Rsa.Gen.C18.eigClamp))])
+
+def asShape (j : Json) : R (Option (Nat × Nat)) := do
+  match ← asOpt (asList asNat) j with
+  | some [a, b] => pure (some (a, b))
+  | none => pure none
+  | _ => throw "shape must be [rows, cols] or null"
+
+/-- does `make_dataset` accept the request (else `ValueError`) -/
+def validate (j : Json) : R Json := do
+  let ndim ← fld j "cond_ndim" >>= asNat
+  let nCh ← fld j "n_ch" >>= asNat
+  let scc ← asShape (fldD j "scc" Json.null)
+  let ncc ← asShape (fldD j "ncc" Json.null)
+  let nct ← asShape (fldD j "nct" Json.null)
+  pure (Json.bool (acceptsRequest ndim nCh scc ncc nct))
+
 def handle : Handler := fun op j =>
   match op with
   | "c18.design" => some (design j)
   | "c18.gram" => some (gram j)
   | "c18.dataset" => some (dataset j)
   | "c18.own" => some (own j)
+  | "c18.signal" => some (signal j)
+  | "c18.validate" => some (validate j)
   | _ => none
 
 end Rsa.Drv.C18
